@@ -400,7 +400,8 @@ def main(argv=None):
     "coverage": cov, "assumptions": getattr(mod, "ASSUMPTIONS", []),
     "wall_s": round(time.time() - t0, 2), "violations": len(viol_unknown),
   }
-  if not args.replay:
+  # evidence describes /repo itself: runs against scratch copies (selftest, seeded changes) never write it
+  if not args.replay and os.path.abspath(args.repo) == "/repo":
     try:
       write_evidence(prop, ev)
     except Exception as e:
